@@ -10,7 +10,7 @@
    einx's parser and through the extracted model, result class / site / positions / tree compared)
    and the regenerated literal tables below. *)
 From Coq Require Import List NArith ZArith.
-From EinxV Require Import Model.Parse Proofs.ParseGen Proofs.ParseProofs Proofs.ParseSim.
+From EinxV Require Import Model.Parse Proofs.ParseGen Proofs.ParseProofs Proofs.ParseSim Proofs.ParseSpace.
 Import ListNotations.
 
 Theorem C12_tables_tied : map lit_text nary_ops = Gen.GenParseTables.gen_nary_ops.
@@ -53,8 +53,7 @@ Print Assumptions C12_parse_arg_total_and_markers_in_text.
    look-ahead stops at a space (lex_app_space), later tokens only shift (lex_shift), the doubled space disappears in
    de-duplication; and no stage of the parser ever looks at a position: token lists with equal kinds give related outcomes
    through grouping, the operator parse, both move-up passes, traverse and the final checks (parse_tokens_sim).
-   Not proved (decided by the correspondence's space-insertion oracle): inserting a space where none was, next to
-   '->', ',', '+', parentheses and brackets. *)
+   (The second spacing clause - a space where none was, next to an operator or a delimiter - is the next theorem.) *)
 Theorem C12_redundant_space_changes_nothing : forall pre post : list N,
   match parse_op (pre ++ 32%N :: 32%N :: post), parse_op (pre ++ 32%N :: post) with
   | Ok t', Ok t => erase t' = erase t
@@ -64,6 +63,26 @@ Theorem C12_redundant_space_changes_nothing : forall pre post : list N,
   end.
 Proof. exact redundant_space_same_structure. Qed.
 Print Assumptions C12_redundant_space_changes_nothing.
+
+(* A space where none was.  On the delimiter trees that grouping produces (Model/Parse.v: [group]): adding a space token
+   next to a '->', ',' or '+' token, or at the beginning / end of the expression or of the inside of a parenthesis or
+   bracket - at any nesting depth - changes nothing: same tree up to positions, or an error from the same place.
+   [tJ] is exactly that relation between the two forests (Proofs/ParseSpace.v, 420 lines: the operator parse splits at the
+   operator and strips the operands, so the space ends up at an end of an operand where [strip] removes it; by induction over
+   the operator levels with the invariant that operators already split away do not occur).  Not covered by a theorem: that
+   [group] maps the token list with the extra space token to the forest with the extra space tree (immediate from its
+   definition - a space is an ordinary token for it - but not proved), and spaces between a name and a delimiter,
+   which the notation does NOT allow to add ("a(b)" is an error, "a (b)" is not). *)
+Theorem C12_space_next_to_an_operator_changes_nothing : forall (ap' ap : list Z) (ts' ts : list ttree),
+  tJ (fun z => z) ts' ts ->
+  match (do x <- parse_top ts'; stage2 ap' x), (do x <- parse_top ts; stage2 ap x) with
+  | Ok t', Ok t => erase t' = erase t
+  | Err site' _, Err site _ => site' = site
+  | Internal site', Internal site => site' = site
+  | _, _ => False
+  end.
+Proof. exact space_next_to_operator. Qed.
+Print Assumptions C12_space_next_to_an_operator_changes_nothing.
 
 (* Re-printing.  "Every expression einx accepts can be written back in the notation and re-read" is FALSE of the faithful
    model, hence of the pinned tree (known finding F5): "[[a b]...]" parses, its printed form "[{a b}...]" does not. *)
@@ -87,3 +106,9 @@ Example C12_spacing_example :
   match parse_op [97; 32; 32; 40; 98; 32; 43; 32; 99; 41]%N, parse_op [97; 32; 40; 98; 32; 43; 32; 99; 41]%N with
   | Ok t', Ok t => erase t' = erase t /\ t' <> t | _, _ => False end.
 Proof. vm_compute. split; [reflexivity|discriminate]. Qed.
+Example C12_operator_spacing_example :
+  (* "a->b,(c+d)" and "a -> b , ( c + d )" *)
+  match parse_op [97; 45; 62; 98; 44; 40; 99; 43; 100; 41]%N,
+        parse_op [97; 32; 45; 62; 32; 98; 32; 44; 32; 40; 32; 99; 32; 43; 32; 100; 32; 41]%N with
+  | Ok t', Ok t => erase t' = erase t | _, _ => False end.
+Proof. vm_compute. reflexivity. Qed.
